@@ -118,7 +118,15 @@ def extract_region(fn, test_text, which=0):
     else:
         want_else = test_text.endswith(' #else')
         text = test_text[:-6] if want_else else test_text
-        found = [n for n in ast.walk(fn) if isinstance(n, ast.If) and ast.unparse(n.test) == text]
+        in_loop = text.endswith(' @loop')        # only an `if` inside a loop of the function (a state of a state machine)
+        text = text[:-6] if in_loop else text
+        scope = [m for n in ast.walk(fn) if isinstance(n, (ast.While, ast.For)) for m in ast.walk(n)] if in_loop else \
+            list(ast.walk(fn))
+        found, seen = [], set()
+        for n in scope:
+            if isinstance(n, ast.If) and ast.unparse(n.test) == text and id(n) not in seen:
+                seen.add(id(n))
+                found.append(n)
         if len(found) <= which:
             raise ContractError('region %r not found in %s' % (test_text, fn.name))
         node = found[which]
